@@ -51,7 +51,9 @@ fn xmin_of(g: &(Glyph, ig::BBox)) -> i16 {
 }
 
 pub fn gen_ttfont(rng: &mut Rng, quick: bool) -> TtFont {
-    let n = 1 + rng.below(if quick { 14 } else { 40 });
+    // glyph counts: small, or exactly a multiple of 32 (the bounding-box bitmap of the transformed glyf
+    // table is padded to 32 glyphs: a boundary of its length formula)
+    let n = if rng.chance(1, 10) { *rng.pick(&[32usize, 64, 32, 96]) } else { 1 + rng.below(if quick { 14 } else { 40 }) };
     let range = *rng.pick(&[200i32, 2000, 16000, 32767]);
     let mut glyphs: Vec<(Glyph, ig::BBox)> = Vec::new();
     for i in 0..n {
@@ -84,6 +86,16 @@ pub fn gen_ttfont(rng: &mut Rng, quick: bool) -> TtFont {
                 }
             }
             Glyph::Composite(Composite { components, instructions: rng.bytes(il) })
+        } else if rng.chance(1, 14) {
+            // deltas of exactly -32768 / +32767 between consecutive points (the extreme 16-bit triplets)
+            let m = 16384i16;
+            let pts = vec![
+                ig::Pt { x: m, y: m, on: true },
+                ig::Pt { x: -m, y: m, on: rng.bool() },
+                ig::Pt { x: -m, y: -m, on: true },
+                ig::Pt { x: m - 1, y: -m, on: rng.bool() },
+            ];
+            Glyph::Simple(ig::Simple { contours: vec![pts], instructions: Vec::new(), overlap: false })
         } else {
             let mut s = ig::gen_simple(rng, 5, 30, range);
             if rng.chance(1, 30) {
@@ -543,6 +555,12 @@ impl C11 {
             }
             if font.num_h_metrics < font.glyphs.len() {
                 cx.class("numberOfHMetrics<numGlyphs");
+            }
+            if font.glyphs.len() % 32 == 0 {
+                cx.class("numGlyphs:multiple-of-32");
+            }
+            if font.glyphs.iter().any(|(g, _)| matches!(g, Glyph::Simple(s) if s.contours.iter().any(|c| c.windows(2).any(|w| w[1].x as i32 - w[0].x as i32 == -32768 || w[1].y as i32 - w[0].y as i32 == -32768)))) {
+                cx.class("delta:-32768");
             }
             if font.glyphs.iter().any(|g| matches!(g.0, Glyph::Composite(_))) {
                 cx.class("has-composite");
